@@ -1,6 +1,8 @@
 package opset13
 
 import (
+	"sort"
+
 	"github.com/advancedclimatesystems/gonnx/onnx"
 	"github.com/advancedclimatesystems/gonnx/ops"
 	"gorgonia.org/tensor"
@@ -55,9 +57,21 @@ func (r *ReduceMin) Init(n *onnx.NodeProto) error {
 func (r *ReduceMin) Apply(inputs []tensor.Tensor) ([]tensor.Tensor, error) {
 	input := tensor.New(tensor.WithBacking(inputs[0].Data()), tensor.WithShape(inputs[0].Shape()...))
 
+	rank := len(input.Shape())
+	if !ops.AllInRange(r.axes, -rank, rank-1) {
+		return nil, ops.ErrNotAllAxesInRange(rank, rank)
+	}
+
 	axes := make([]int, len(r.axes))
 	for i, axis := range r.axes {
 		axes[i] = ops.ConvertNegativeAxis(axis, len(input.Shape()))
+	}
+
+	sortedAxes := append([]int{}, axes...)
+	sort.Ints(sortedAxes)
+
+	if ops.HasDuplicates(sortedAxes) {
+		return nil, ops.ErrInvalidInput("axes cannot have duplicate entries after offset", r)
 	}
 
 	out, err := input.Min(axes...)
